@@ -59,9 +59,11 @@ ls!(__sanitizer_cov_load1, 2; __sanitizer_cov_load2, 2; __sanitizer_cov_load4, 2
     __sanitizer_cov_store1, 3; __sanitizer_cov_store2, 3; __sanitizer_cov_store4, 3; __sanitizer_cov_store8, 3; __sanitizer_cov_store16, 3);
 
 #[inline(never)]
-fn traced<T>(f: impl FnOnce() -> T) -> (T, (u64, u64, u64)) {
+fn traced_core<T>(f: &dyn Fn() -> T, record: bool) -> (T, (u64, u64, u64)) {
     let marker = 0u8;
     unsafe {
+        LOG.clear();
+        RECORD = record;
         BASE = (&marker as *const u8 as u64) & !0xFFF;
         H1 = 0xcbf2_9ce4_8422_2325;
         H2 = 0;
@@ -71,7 +73,51 @@ fn traced<T>(f: impl FnOnce() -> T) -> (T, (u64, u64, u64)) {
     let r = f();
     unsafe {
         ON = false;
+        RECORD = false;
         (r, (H1, H2, N))
+    }
+}
+
+/// same as `traced`, additionally returning the full ordered event list (kind, value). Both go through `traced_core`
+/// from the same stack depth, so that the recorded run has the same stack addresses as an unrecorded one.
+#[inline(always)]
+fn traced_rec<T>(f: &dyn Fn() -> T) -> (T, (u64, u64, u64), Vec<(u8, u64)>) {
+    let (r, t) = traced_core(f, true);
+    (r, t, unsafe { std::mem::take(&mut LOG) })
+}
+#[inline(always)]
+fn traced<T>(f: impl Fn() -> T) -> (T, (u64, u64, u64)) { traced_core(&f, false) }
+
+// Inputs are staged in FIXED buffers before a traced call: an input that lives at a different address for every run
+// (an element of a Vec) would make the recorded load addresses differ although the code under test is the same.
+static mut RNG_IN: [u8; 64] = [0u8; 64];
+static mut POLY_IN: [[i32; 256]; 4] = [[0i32; 256]; 4];
+trait Stage {
+    /// copy self into the fixed staging area and return a reference into it
+    fn stage(&self) -> &'static Self;
+}
+impl Stage for [i32; 256] {
+    fn stage(&self) -> &'static Self {
+        unsafe {
+            POLY_IN[0] = *self;
+            &POLY_IN[0]
+        }
+    }
+}
+impl Stage for [[i32; 256]; 4] {
+    fn stage(&self) -> &'static Self {
+        unsafe {
+            POLY_IN = *self;
+            &POLY_IN
+        }
+    }
+}
+impl Stage for [u8; 64] {
+    fn stage(&self) -> &'static Self {
+        unsafe {
+            RNG_IN = *self;
+            &RNG_IN
+        }
     }
 }
 
@@ -81,9 +127,21 @@ struct Group {
     name: String,
     inputs: u64,
     traces: std::collections::BTreeMap<(u64, u64, u64), (u64, String)>,
+    ref_log: Option<(Vec<(u8, u64)>, String)>,
+    divergence: Option<String>,
 }
 impl Group {
-    fn new(name: &str) -> Group { Group { name: name.to_string(), inputs: 0, traces: Default::default() } }
+    fn new(name: &str) -> Group { Group { name: name.to_string(), inputs: 0, traces: Default::default(), ref_log: None, divergence: None } }
+    /// first divergence between the recorded reference run and `log`
+    fn localise(&mut self, log: &[(u8, u64)], label: &str) {
+        let Some((a, la)) = &self.ref_log else { return };
+        let kinds = ["?", "edge", "load", "store"];
+        let n = a.len().min(log.len());
+        let idx = (0..n).find(|&i| a[i] != log[i]).unwrap_or(n);
+        let last_edges: Vec<u64> = a[..idx].iter().rev().filter(|e| e.0 == 1).take(3).map(|e| e.1).collect();
+        let show = |l: &[(u8, u64)]| l.get(idx).map(|e| format!("{}:{:#x}", kinds[e.0 as usize & 3], e.1)).unwrap_or_else(|| "end-of-trace".into());
+        self.divergence = Some(format!("event #{idx}: input '{la}' -> {}, input '{label}' -> {}; last edges before it {last_edges:?}; lengths {} vs {}", show(a), show(log), a.len(), log.len()));
+    }
     fn add(&mut self, t: (u64, u64, u64), label: impl FnOnce() -> String) {
         self.inputs += 1;
         let e = self.traces.entry(t).or_insert_with(|| (0, label()));
@@ -92,7 +150,7 @@ impl Group {
     fn emit(&self) {
         let mut reps: Vec<String> = self.traces.iter().take(4).map(|(k, v)| format!("{{\"events\":{},\"count\":{},\"first_input\":\"{}\"}}", k.2, v.0, v.1)).collect();
         reps.sort();
-        println!("{{\"group\":\"{}\",\"inputs\":{},\"distinct_traces\":{},\"examples\":[{}]}}", self.name, self.inputs, self.traces.len(), reps.join(","));
+        println!("{{\"group\":\"{}\",\"inputs\":{},\"distinct_traces\":{},\"examples\":[{}],\"first_divergence\":\"{}\"}}", self.name, self.inputs, self.traces.len(), reps.join(","), self.divergence.clone().unwrap_or_default());
     }
 }
 
@@ -139,14 +197,40 @@ fn rng_inputs(ncounter: u64, seed: u64) -> Vec<([u8; 64], String)> {
     v
 }
 
+/// run one input: the first input of a group is recorded as the reference; when a second distinct trace shows up the
+/// offending input is re-run in recording mode and the first differing event is reported
+macro_rules! run_input {
+    ($g:expr, $label:expr, $f:expr) => {{
+        // ONE closure object: the reference run, the normal run and the re-run execute the same compiled code
+        let f = $f;
+        if $g.ref_log.is_none() {
+            let (_, t, log) = traced_rec(&f);
+            $g.ref_log = Some((log, $label()));
+            $g.add(t, $label);
+        } else {
+            let (_, t) = traced_core(&f, false);
+            $g.add(t, $label);
+            if $g.traces.len() > 1 && $g.divergence.is_none() {
+                let (_, _t2, log) = traced_rec(&f);
+                if $g.ref_log.as_ref().map(|r| r.0 != log).unwrap_or(false) {
+                    let l: String = $label();
+                    $g.localise(&log, &l);
+                }
+            }
+        }
+    }};
+}
+
 macro_rules! pipeline {
     ($g:expr, $ns:ident, $inputs:expr, $msg:expr) => {{
         for (d, label) in $inputs.iter() {
-            let mut rng = Replay { data: *d, pos: 0 };
+            let d: &'static [u8; 64] = d.stage();
             #[allow(deprecated)]
-            let (r, t) = traced(|| fips204::$ns::dudect_keygen_sign_with_rng(&mut rng, $msg));
-            assert!(r.is_ok());
-            $g.add(t, || label.clone());
+            let f = || {
+                let mut rng = Replay { data: *d, pos: 0 };
+                fips204::$ns::dudect_keygen_sign_with_rng(&mut rng, $msg).is_ok()
+            };
+            run_input!($g, || label.clone(), f);
         }
     }};
 }
@@ -257,8 +341,7 @@ fn kernel_groups(thorough: bool, inputs: &[([u8; 64], String)]) {
             let mut g = Group::new($name);
             for x in $range {
                 let xv = std::hint::black_box(x);
-                let (_, t) = traced(|| std::hint::black_box($f(xv)));
-                g.add(t, || format!("{x}"));
+                run_input!(g, || format!("{x}"), || std::hint::black_box($f(xv)));
             }
             g.emit();
         }};
@@ -312,9 +395,8 @@ fn kernel_groups(thorough: bool, inputs: &[([u8; 64], String)]) {
         ($name:expr, $inputs:expr, $f:expr) => {{
             let mut g = Group::new($name);
             for (w, label) in $inputs.iter() {
-                let wv = std::hint::black_box(w);
-                let (_, t) = traced(|| std::hint::black_box($f(wv)));
-                g.add(t, || label.clone());
+                let wv = std::hint::black_box(w.stage());
+                run_input!(g, || label.clone(), || std::hint::black_box($f(wv)));
             }
             g.emit();
         }};
@@ -375,10 +457,9 @@ fn kernel_groups(thorough: bool, inputs: &[([u8; 64], String)]) {
         let mut g = Group::new("expand_mask:secret-seed");
         let mut g2 = Group::new("expand_s<CTEST>:secret-seed");
         for (d, label) in inputs.iter().take(if thorough { 1200 } else { 300 }) {
-            let (_, t) = traced(|| hk::expand_mask::<4>(1 << 17, d, 0));
-            g.add(t, || label.clone());
-            let (_, t) = traced(|| hk::expand_s::<true, 4, 4>(2, d));
-            g2.add(t, || label.clone());
+            let d: &'static [u8; 64] = d.stage();
+            run_input!(g, || label.clone(), || hk::expand_mask::<4>(1 << 17, d, 0));
+            run_input!(g2, || label.clone(), || hk::expand_s::<true, 4, 4>(2, d));
         }
         g.emit();
         g2.emit();
@@ -389,13 +470,12 @@ fn kernel_groups(thorough: bool, inputs: &[([u8; 64], String)]) {
         let mut s = 77u64;
         for k in 0..if thorough { 400 } else { 60 } {
             let h: [Poly; 4] = core::array::from_fn(|_| core::array::from_fn(|_| i32::from(splitmix(&mut s) % 13 == 0 && k % 3 != 0)));
-            let hv = std::hint::black_box(&h);
-            let (_, t) = traced(|| {
+            let hv = std::hint::black_box(h.stage());
+            run_input!(g, || format!("h{k}"), || {
                 let mut y = [0u8; 84];
                 hk::hint_bit_pack::<true, 4>(80, hv, &mut y);
                 y
             });
-            g.add(t, || format!("h{k}"));
         }
         g.emit();
     }
